@@ -24,6 +24,7 @@ KIND_NAMES = {
     1603: 'C16/http_parse: HTTP response interpretation vs Tracker.http_response',
     301: 'C03/cached_read: cachedpiece.ReadAt vs Cache.cached_read',
     302: 'C03/cache: piececache.Cache vs Cache.cache_get (LRU)',
+    304: 'C03/cache_split: piececache Get split into its lookup and read halves (export shim) with other Gets and evictions in between vs Cache.run_cache_split',
     303: 'C03/admission: request handling of the stepped event loop vs Admission.serve',
     1801: 'C18/blocklist: blocklist.Reload+Blocked vs Stree.reload/contains',
     1802: 'C18/stree: stree.Contains vs Stree.build/contains',
@@ -125,7 +126,7 @@ PROPS = {
         'assumptions': ['the torrent loop calls the picker under the glue discipline modelled by Picker.pstep'],
     },
     'C03': {
-        'kinds': {301: {'quick': 3000, 'thorough': 60000}, 302: {'quick': 3000, 'thorough': 60000}, 303: {'quick': 1500, 'thorough': 30000}, 1105: {'quick': 3000, 'thorough': 60000}},
+        'kinds': {301: {'quick': 3000, 'thorough': 60000}, 302: {'quick': 3000, 'thorough': 60000}, 303: {'quick': 1500, 'thorough': 30000}, 304: {'quick': 3000, 'thorough': 60000}, 1105: {'quick': 3000, 'thorough': 60000}},
         'trusted': ['container/heap keeps the least recently used item at index 0; time.AfterFunc TTL expiry is not exercised (TTL one hour)'],
         'assumptions': ['0 < ReadCacheBlockSize < 2^31; piece length < 2^32'],
     },
